@@ -13,6 +13,7 @@ EXPLANATION = (
     '(R7) Runtime::add_event_in schedules at the current simulation clock + the given duration (SimTime::now at the call, no other base time). '
     "(R8/R9, shared with C01.R8/R5) the calendar's index grid and scan window are in full resolution, the window is stepped and the bound follows the popped event. "
     '(R8 also, shared with C01.R2: one bucket-index expression; R10, shared with C03.R2: the same-instant FIFO holds exactly the events with time == bound.) '
+    '(R7 also: the event set hands an event out with exactly the instant it was stored under - no coarser read-out, numeric cast or float detour between the container and the returned pair.) '
     "Decides these necessary conditions only; monotonicity over a run additionally needs the event set's order (C01, not decided).")
 ASSUMPTIONS = ["atomic stores/loads behave as documented; the clock static is only reachable through its def path"]
 USES_B = True
